@@ -1578,4 +1578,58 @@ theorem validUtf8_chars : ∀ (l : List Char) (rest : Bytes),
     simp only [List.flatMap_cons, List.append_assoc]
     rw [validUtf8_encodeChar, validUtf8_chars l rest]
 
+/-! ### BundleNetAddr -/
+
+theorem clumpedOf_append (a b : List BSend) : clumpedOf (a ++ b) = clumpedOf a ++ clumpedOf b := by
+  induction a with
+  | nil => rfl
+  | cons x xs ih => cases x <;> simp [clumpedOf, ih]
+
+theorem clumpedOf_sendPending (p : List PV) : clumpedOf (sendPending p) = p := by
+  unfold sendPending
+  cases p <;> simp [clumpedOf]
+
+structure BInv (b : BNA) : Prop where
+  le : (b.lastSync + 1).toNat ≤ b.bundle.length
+  nn : 0 ≤ b.lastSync + 1
+
+theorem pending_append (b : BNA) (h : BInv b) (l : List (Option PV)) :
+    BNA.pending { b with bundle := b.bundle ++ l } = b.pending ++ l.filterMap id := by
+  unfold BNA.pending
+  simp only
+  rw [List.drop_append_of_le_length h.le, List.filterMap_append]
+
+theorem bna_run : ∀ (ops : List BOp) (b : BNA), BInv b →
+    clumpedOf (b.run ops).2 ++ (b.run ops).1.pending = b.pending ++ collected ops ∧ BInv (b.run ops).1
+  | [], b, h => by simp [BNA.run, clumpedOf, collected, h]
+  | op :: ops, b, h => by
+    cases op with
+    | msg e =>
+      have hi : BInv { b with bundle := b.bundle ++ [some e] } :=
+        ⟨by have := h.le; simp only [List.length_append]; omega, h.nn⟩
+      have ih := bna_run ops _ hi
+      simp only [BNA.run, BNA.step, List.nil_append, collected]
+      refine ⟨?_, ih.2⟩
+      rw [ih.1, pending_append b h]
+      simp
+    | extend es =>
+      have hi : BInv { b with bundle := b.bundle ++ es.map some } :=
+        ⟨by have := h.le; simp only [List.length_append]; omega, h.nn⟩
+      have ih := bna_run ops _ hi
+      simp only [BNA.run, BNA.step, List.nil_append, collected]
+      refine ⟨?_, ih.2⟩
+      rw [ih.1, pending_append b h]
+      simp [List.filterMap_map]
+    | sync el =>
+      have hi : BInv ⟨b.bundle ++ [none], b.bundle.length⟩ :=
+        ⟨by simp, by show (0 : Int) ≤ (b.bundle.length : Int) + 1; omega⟩
+      have ih := bna_run ops _ hi
+      have hp : BNA.pending ⟨b.bundle ++ [none], b.bundle.length⟩ = [] := by
+        unfold BNA.pending
+        simp
+      simp only [BNA.run, BNA.step, collected]
+      refine ⟨?_, ih.2⟩
+      rw [clumpedOf_append, clumpedOf_append, clumpedOf_sendPending, List.append_assoc, List.append_assoc, ih.1, hp]
+      simp [clumpedOf]
+
 end Sc3Verif.C06
